@@ -335,7 +335,11 @@ func c15Explore(t *testing.T, c *ev.Collector, k c15Case) {
 		Delay: true,
 		Bound: k.Bound,
 		Run: func(prefix []int, expect []bsched.Point) *bsched.Exec {
-			return runSched(t, prefix, expect, 3000, func(s *bsched.Sched) any { return c15Body(k, s) })
+			return runSched(t, prefix, expect, 3000, func(s *bsched.Sched) any { return c15Body(k, s) }, func(x *bsched.Exec) {
+				c15Judge(c, k, x)
+				c.NotExhaustive("a deadlocked call could not be torn down; the worker stopped after recording it")
+				_ = c.Finish()
+			})
 		},
 		Stop: c.Expired,
 	}
